@@ -290,6 +290,12 @@ func body(sc Scenario, r *run) func() {
 					}
 				case "delete":
 					r.record(t, in{K: "Delete", N: p.N}, func() out { im.Delete(dir, p.N); return out{} })
+				case "opendel":
+					// open, unlink while open, close: other open handles of the file must keep their data
+					if o := open(t, p.N); o.Panic == "" {
+						r.record(t, in{K: "Delete", N: p.N}, func() out { im.Delete(dir, p.N); return out{} })
+						closeF(t, o.F)
+					}
 				case "link":
 					r.record(t, in{K: "Link", N: p.N, M: p.M}, func() out { return out{Ok: im.Link(dir, p.N, dir, p.M)} })
 				case "ac":
@@ -392,7 +398,7 @@ func verdict(sc Scenario, r *run, s *csched.Sched) (kind, msg, outcome string) {
 				ever["d"][p.N] = true
 			case "link":
 				ever["d"][p.M] = true
-			case "delete":
+			case "delete", "opendel":
 				always["d"][p.N] = false
 			case "appendpre":
 				n := fmt.Sprintf("p%d", t)
@@ -462,6 +468,7 @@ func progs() []Prog {
 		{K: "list"},
 		{K: "appendpre"}, {K: "readpre"},
 		{K: "list2"}, {K: "ac2", N: "f"}, {K: "appendp"}, {K: "appendbig"}, {K: "readp"},
+		{K: "opendel", N: "f"},
 	}
 }
 
@@ -469,7 +476,7 @@ func progs() []Prog {
 func valid(ths []Prog) bool {
 	deletes := 0
 	for _, p := range ths {
-		if p.K == "delete" {
+		if p.K == "delete" || p.K == "opendel" {
 			deletes++
 		}
 	}
@@ -488,7 +495,7 @@ func interesting(ths []Prog) bool {
 	// at least one mutating program
 	for _, p := range ths {
 		switch p.K {
-		case "create", "delete", "link", "ac", "appendpre", "open", "ac2", "appendp", "appendbig", "list2":
+		case "create", "delete", "opendel", "link", "ac", "appendpre", "open", "ac2", "appendp", "appendbig", "list2":
 			// open allocates a descriptor: it mutates the descriptor table
 			return true
 		}
@@ -607,7 +614,7 @@ func main() {
 	mcx.RacePass(acc, "C14", *tier)
 	os.Exit(acc.Done(ev.Finish{
 		Prop: "C14", Tier: *tier, Level: "model_checking", Start: start,
-		Rule:        fmt.Sprintf("all pairs (thorough: + triples) of thread programs {Create+Append+Close, Open+ReadAt+Close, Delete, Link, AtomicCreate, List, two Appends through an own descriptor, two ReadAts through a pre-opened descriptor} on one directory with colliding names f,g whose preconditions hold under every interleaving; MemFs with a preemption point before every statement and lock operation and copies split in halves, DirFs with one atomic step per simulated system call; every schedule with <= %d preemptions; oracle: porcupine linearizability of the complete call/return history (including the sequential prior and final read-back) w.r.t. the reference filesystem, live descriptors distinct; DirFs List judged by the documented non-atomic contract", bound),
+		Rule:        fmt.Sprintf("all pairs (thorough: + triples) of thread programs {Create+Append+Close, Open+ReadAt+Close, Delete, Link, AtomicCreate, List, two Appends through an own descriptor, two ReadAts through a pre-opened descriptor, Open+Delete+Close of a file that another thread holds open} on one directory (every range over a map in mem.go / dir.go iterates in an order chosen by the explorer) with colliding names f,g whose preconditions hold under every interleaving; MemFs with a preemption point before every statement and lock operation and copies split in halves, DirFs with one atomic step per simulated system call; every schedule with <= %d preemptions; oracle: porcupine linearizability of the complete call/return history (including the sequential prior and final read-back) w.r.t. the reference filesystem, live descriptors distinct; DirFs List judged by the documented non-atomic contract", bound),
 		Assumptions: []string{"preemption only at instrumented points", "system calls are atomic steps in simunix", "free-running -race pass is a complement, not exhaustive over schedules"},
 		Extra:       mcx.Extra(acc, map[string]any{"preemption_bound": bound}),
 	}))
